@@ -316,9 +316,9 @@ def drop_cut_unwindset(scratch, obs, depth):
             if f.endswith('.out') and not f.endswith('.symtab.out'):
                 outs.append(os.path.join(dp, f))
     ids = {}
-    for out in outs:
-        if not any(o.harness in out for o in obs):
-            continue
+    mine = [o_ for o_ in outs if any(o.harness in o_ for o in obs)]
+    # the identifiers are crate-global (same compilation): any harness binary of this build that contains them will do
+    for out in (mine if mine else outs[:6]):
         p = subprocess.run(['goto-instrument', '--list-goto-functions', out], stdout=subprocess.PIPE,
                            stderr=subprocess.DEVNULL, text=True, timeout=600)
         for line in p.stdout.splitlines():
